@@ -46,7 +46,7 @@ Fixpoint rot_check (prefix : name) (n : nat) (d : dir) (steps : list rstep) : bo
   match steps with
   | [] => true
   | s :: r =>
-      let d' := do_rollover source_slice prefix n d (s_date s) in
+      let d' := do_rollover prefix n d (s_date s) in
       negb (s_raised s) && list_eqb entry_eqb (sort d') (s_listing s) && rot_check prefix n d' r
   end.
 
@@ -72,7 +72,7 @@ Fixpoint route_trace (mods : list name) (t : table) (ops : list op) : list (list
 Fixpoint rot_trace (prefix : name) (n : nat) (d : dir) (steps : list rstep) : list (bool * list entry) :=
   match steps with
   | [] => []
-  | s :: r => let d' := do_rollover source_slice prefix n d (s_date s) in
+  | s :: r => let d' := do_rollover prefix n d (s_date s) in
               (false, sort d') :: rot_trace prefix n d' r
   end.
 Inductive model_out :=
